@@ -97,6 +97,7 @@ pub fn cover(
             continue;
         }
         let w = ex.refac.string(node);
+        util::tick_progress();
         // deep nodes of long chains: fewer tails (cost is quadratic in the depth)
         let tl = if w.len() > 64 { &short_tails } else { &tails };
         for &c in &labels {
@@ -243,6 +244,9 @@ pub fn bisim(a: &Side, b: &Side, labels: &[u32], char_gran: bool) -> BisimResult
     };
     while qi < order.len() {
         let (sa, sb, _, _) = order[qi];
+        if qi % 64 == 0 {
+            util::tick_progress();
+        }
         // observation
         match (a.obs(sa), b.obs(sb)) {
             (Ok((ra, ca)), Ok((rb, cb))) => {
